@@ -78,7 +78,7 @@ def setsOf (h : List Op) : List (Nat × Key × OV) :=
   h.flatMap (fun | .commit tx => tx.filterMap (fun | .set n k v => some (n, k, v) | _ => none) | _ => [])
 
 /-- values whose ordered encoding is longer than this are outside the model (see `trigOversizedKey`) -/
-def maxIndexedValueLen : Nat := 1024
+def maxIndexedValueLen : Nat := 3600
 
 /-- C15-oversized-key: a property value whose index key cannot fit a B-tree cell.  With an index on
     the property `commit` then panics inside `BTree::insert` (`rebuild_leaf` unwraps "no space")
